@@ -1,5 +1,10 @@
 package main
 
+import (
+	"go/ast"
+	"strings"
+)
+
 // Shapes of internal/jobs/error_handler.go that the Bisect model (C17) and the wrapper
 // forwarding theorem (C11) assume.
 func init() {
@@ -24,6 +29,21 @@ func init() {
 		o.p("def logReset : List String := %s\n", leanList(topStatements(lr)))
 		hj := mustFunc(f, "job", "handleJobError")
 		o.p("def rerunCond : List String := %s\n", leanList(ifCondsWhoseBodyContains(hj, "eh.MaxRetries = eh.MaxRetries - 1")))
+		// body of `if eh.MaxRetries > 0 { … }`: the budget is decremented before the timer is armed
+		var rerunBody []string
+		ast.Inspect(hj.Body, func(n ast.Node) bool {
+			if is, ok := n.(*ast.IfStmt); ok && oneLine(str(is.Cond)) == "eh.MaxRetries > 0" {
+				for _, b := range is.Body.List {
+					t := oneLine(str(b))
+					if i := strings.Index(t, "("); i > 0 && strings.HasPrefix(t, "time.AfterFunc") {
+						t = "time.AfterFunc(…)"
+					}
+					rerunBody = append(rerunBody, t)
+				}
+			}
+			return true
+		})
+		o.p("def rerunBody : List String := %s\n", leanList(rerunBody))
 		o.p("def interruptCond : List String := %s\n", leanList(ifCondsWhoseBodyContains(hj, "interrupted")))
 		// wrapper forwarding targets: for each method of wrappedTransform / wrappedSink the receiver of the forwarded call
 		for _, w := range [][2]string{{"wrappedTransform", "t"}, {"wrappedSink", "s"}} {
